@@ -81,6 +81,17 @@ pub mod env {
         pub fn data<'a, C: DataCtx<'a>>(&self, ctx: C) -> (r: &'a [u8])
             ensures r@ == ctx.mem_of(*self), ctx.untouched()
         { unimplemented!() }
+        /// ASSUMED (wasmi `Memory::data_mut`): the whole linear memory as a mutable byte slice; what is written
+        /// through the slice is what happens to this memory, nothing else changes.  Not used by the shipped
+        /// code: present so that a rewrite of write_memory through it is DECIDED instead of being an unknown method.
+        #[verifier::external_body]
+        pub fn data_mut<'a, 'b>(&self, ctx: &'a mut StoreContextMut<'b>) -> (r: &'a mut [u8])
+            ensures r@ == old(ctx).store.mem(*self),
+                final(ctx).store.mem(*self) == final(r)@,
+                final(r)@ == r@ ==> *final(ctx).store == *old(ctx).store,
+                forall|m: Memory| m != *self ==> final(ctx).store.mem(m) == old(ctx).store.mem(m),
+                *final(final(ctx).store) == *final(old(ctx).store),
+        { unimplemented!() }
         /// ASSUMED (wasmi `Memory::write`), deliberately with the bounds as a PRECONDITION.
         #[verifier::external_body]
         pub fn write(&self, ctx: &mut StoreContextMut<'_>, offset: usize, buffer: &[u8]) -> (r: Result<(), MemoryError>)
@@ -419,7 +430,7 @@ pub mod unit {
                 ret is Ok ==> final(store.store).mem(memory) == written(old(store.store).mem(memory), ptr as int, data@),
                 ret is Ok ==> forall|m: Memory| m != memory ==> final(store.store).mem(m) == old(store.store).mem(m),
                 ret is Err ==> *final(store.store) == *old(store.store),
-        @closure 1 := |_e: MemoryError| -> (r: InvokeError<WasmRuntimeError>) ensures r == access_error()
+        @closure? 1 := |_e: MemoryError| -> (r: InvokeError<WasmRuntimeError>) ensures r == access_error()
         @*/
 
         /*@fn radix-engine/src/vm/wasm/wasmi.rs :: fn consume_buffer
